@@ -71,6 +71,42 @@ KERNELS += [
          rules=[(k, v, 1) for k, v in KEYIDS] + [(r"add_vectorised_key\((KEY_\w+), &(\w+)\);", r"K_BIND(\1, MEMBER_\2);", 3)]),
 ]
 
+# ---- byte order: read_data / write_data pass the caller's byte order down to every inner read / write ----
+RD = "src/include/stir/IO/read_data.inl"
+WR = "src/include/stir/IO/write_data.inl"
+INNER = [(r"read_data_1d\(s, (\*?\w+), (\w+)\)", r"K_inner_io(\2)", (0, 3)), (r"read_data_1d\(s, (\*?\w+)\)", "K_inner_io(BYTEORDER_DEFAULT_ARGUMENT)", (0, 3)),
+         (r"read_data\(s, (\*?\w+), (\w+)\)", r"K_inner_io(\2)", (0, 3)), (r"read_data\(s, (\*?\w+)\)", "K_inner_io(BYTEORDER_DEFAULT_ARGUMENT)", (0, 3)),
+         (r"Succeeded::yes", "1", None), (r"Succeeded::no", "0", None), (r"Succeeded success", "int success", (0, 1))]
+KERNELS += [
+    dict(name="K_rd_conv", file=RD, cxx_name="read_data(s, data, NumericInfo<InputType>, scale_factor, byte_order)",
+         func=r"read_data\(IStreamT& s,\s*Array<num_dimensions, elemT>& data,\s*NumericInfo<InputType> input_type,\s*ScaleT& scale_factor,\s*const ByteOrder byte_order\)",
+         c_header="int K_rd_conv(float* scale_factor, const int byte_order)", loops=0, contract_alias="K_io_byte_order",
+         rules=[(r"typeid\(InputType\) == typeid\(elemT\)", "g_same_type", 1), (r"scale_factor = ScaleT\(1\);", "*scale_factor = 1.F;", 1),
+                (r"Array<num_dimensions, InputType> in_data\(data\.get_index_range\(\)\);", "", 1), (r"convert_array\(data, scale_factor, in_data\);", "K_convert();", 1)] + INNER),
+    dict(name="K_rd_recurse", file=RD, cxx_name="detail::read_data_help(is_not_1d, s, data, byte_order)",
+         func=r"read_data_help\(is_not_1d, IStreamT& s, Array<num_dimensions, elemT>& data, const ByteOrder byte_order\)",
+         c_header="int K_rd_recurse(const int n_rows, const int byte_order)", loops=1, contract_alias="K_io_byte_order",
+         rules=[(r"data\.is_contiguous\(\)", "g_contiguous", 1),
+                (r"for \(typename Array<num_dimensions, elemT>::iterator iter = data\.begin\(\); iter != data\.end\(\); \+\+iter\)", "for (int iter = 0; iter != n_rows; ++iter)", 1),
+                (r"\*iter", "iter", 1)] + INNER),
+]
+
+WINNER = [(r"write_data_1d\(s, (\w+), (\w+), [^()]*\)", r"K_inner_io(\2)", (0, 3)),
+          (r"write_data_with_fixed_scale_factor\(s, (\*?\w+), (\w+(?:<[^>]*>\(\))?), ([\w.]+), (\w+), (\w+)\)", r"K_inner_io(\4)", (0, 3)),
+          (r"Succeeded::yes", "1", None), (r"Succeeded::no", "0", None)]
+KERNELS += [
+    dict(name="K_wr_fixed_1d", file=WR, cxx_name="detail::write_data_with_fixed_scale_factor_help(is_1d, ...)",
+         func=r"write_data_with_fixed_scale_factor_help\(is_1d,\s*OStreamT& s,\s*const Array<1, elemT>& data,\s*NumericInfo<OutputType>,\s*const ScaleT scale_factor,\s*const ByteOrder byte_order,\s*const bool can_corrupt_data\)",
+         c_header="int K_wr_fixed_1d(const float scale_factor, const int byte_order, const _Bool can_corrupt_data)", loops=0, contract_alias="K_io_byte_order",
+         rules=[(r"typeid\(OutputType\) != typeid\(elemT\)", "!g_same_type", 1), (r"ScaleT new_scale_factor = scale_factor;", "float new_scale_factor = scale_factor;", 1),
+                (r"auto data_tmp = convert_array\(new_scale_factor, data, NumericInfo<OutputType>\(\)\);", "new_scale_factor = K_convert_scale(new_scale_factor);", 1),
+                (r"std::fabs\(", "fabsf(", 1)] + WINNER),
+    dict(name="K_wr_fixed_recurse", file=WR, cxx_name="detail::write_data_with_fixed_scale_factor_help(is_not_1d, ...)",
+         func=r"write_data_with_fixed_scale_factor_help\(is_not_1d,\s*OStreamT& s,\s*const Array<num_dimensions, elemT>& data,\s*NumericInfo<OutputType> output_type,\s*const ScaleT scale_factor,\s*const ByteOrder byte_order,\s*const bool can_corrupt_data\)",
+         c_header="int K_wr_fixed_recurse(const int n_rows, const float scale_factor, const int byte_order, const _Bool can_corrupt_data)", loops=1, contract_alias="K_io_byte_order",
+         rules=[(r"for \(auto iter = data\.begin\(\); iter != data\.end\(\); \+\+iter\)", "for (int iter = 0; iter != n_rows; ++iter)", 1)] + WINNER),
+]
+
 TYPES = ["schar", "uchar", "short", "ushort", "int", "uint"]
 CHK = ["--signed-overflow-check", "--div-by-zero-check", "--bounds-check", "--pointer-check", "--conversion-check", "--float-overflow-check", "--nan-check"]
 
@@ -111,6 +147,14 @@ def jobs(tier, gen_dir):
                    replay="radionuclide"))
     out.append(Job("c10/canary/lemma_rn_roundtrip", HARNESS, "h_lemma_rn_roundtrip", kind="canary", kernels=[], replace=["K_write_rn_info", "K_ifh_rn_keys", "K_ifh_radionuclide"],
                    defines={"LEMMA_CANARY": None}, flags=[], no_base_flags=True, expect_fail=r"vacuity canary", timeout=300))
+    for k, lc in (("K_rd_conv", False), ("K_rd_recurse", True)):
+        out.append(Job("c10/" + k, HARNESS, "h_" + k, enforce=k, kernels=[k], flags=CHK, no_base_flags=True, min_obligations=2, timeout=300, backend="sat", loop_contracts=lc,
+                       replay="byteorder"))
+    for k, lc in (("K_wr_fixed_1d", False), ("K_wr_fixed_recurse", True)):
+        out.append(Job("c10/" + k, HARNESS, "h_" + k, enforce=k, kernels=[k], flags=CHK, no_base_flags=True, min_obligations=2, timeout=300, backend="sat", loop_contracts=lc,
+                       replay="byteorder"))
+    out.append(Job("c10/canary/K_rd_conv", HARNESS, "h_K_rd_conv", enforce="K_rd_conv", kernels=["K_rd_conv"], kind="canary", defines={"CANARY_K_rd_conv": None},
+                   expect_fail=r"K_rd_conv\.postcondition", no_base_flags=True, timeout=300))
     out.append(Job("c10/canary/K_ifh_radionuclide", HARNESS, "h_K_ifh_radionuclide", enforce="K_ifh_radionuclide", replace=["K_radionuclide_ctor", "K_db_get_radionuclide"],
                    kernels=["K_ifh_radionuclide"], kind="canary", defines={"CANARY_K_ifh_radionuclide": None}, expect_fail=r"K_ifh_radionuclide\.postcondition",
                    no_base_flags=True, timeout=300))
@@ -138,6 +182,18 @@ import subprocess
 
 
 def replay(job, o, workroot, repo):
+    if "K_rd_" in job.name or "K_wr_" in job.name:
+        from vlib import native
+        exe = os.path.join(workroot, "c10_bo_replay")
+        if not os.path.exists(exe):
+            exe, info = native.build(repo, os.path.join(VERIF, "replay", "c10_bo.cpp"), exe)
+            if not exe:
+                return {"status": "unavailable", "detail": "replay driver did not build: " + info}
+        os.environ.setdefault("STIR_CONFIG_DIR", os.path.join(repo, "src/config"))
+        st, detail = native.run(exe, [workroot], timeout=300)
+        if st == "confirmed":
+            return {"status": "confirmed", "detail": detail, "command": "c10_bo_replay <dir>", "from_verifier_counterexample": False}
+        return {"status": "not-reproduced", "detail": "c10_bo_replay: images written as short / int / float in both byte orders and read back (" + str(detail)[:160] + ")"}
     if "radionuclide" in job.name or "rn_" in job.name:
         from vlib import native
         exe = os.path.join(workroot, "c10_rn_replay")
